@@ -142,17 +142,21 @@ class LinearModel(darsia.Model):
         else:
             raise ValueError(f"Unknown dof {dofs}.")
 
-    def __call__(self, img: np.ndarray) -> np.ndarray:
+    def __call__(self, img: np.ndarray | darsia.Image) -> np.ndarray | darsia.Image:
         """
         Application of linear model.
 
         Args:
-            img (np.ndarray): image
+            img (np.ndarray | Image): image
 
         Returns:
-            np.ndarray: converted signal
+            np.ndarray | Image: converted signal; output type is the same as input type
 
         """
+        if isinstance(img, darsia.Image):
+            # Images support scaling but no addition of scalars - operate on the data.
+            data = self._scaling * img.img + self._offset
+            return type(img)(data, **img.metadata())
         return self._scaling * img + self._offset
 
 
